@@ -190,6 +190,27 @@ def handleMachineTransition (orc : Oracle) (inst : Instance) (s : State) (r : Rn
 
 /-! ## handler.py : transport handlers -/
 
+/-- `Optional` value or raise -/
+def optE {α} (o : Option α) (e : Err) : Except Err α :=
+  match o with | some a => pure a | none => throw e
+
+/-- the branch of `_get_waiting_time` for a finished job that is not at the release position of
+    its post-buffer: wait for the job in front of it -/
+def waitBehind (inst : Instance) (s : State) (tr : Transition) (j : JobState) (ms : MachineState) (bc : BufCfg) :
+    Except Err Occ := do
+  let nxt ← optE (nextJobFromBuffer ms.post bc) .invalidValue
+  let nj ← getJob s.jobs nxt
+  if jobDone inst nj then pure (.at s.time)
+  else pure (match transportByJob s nxt with
+    | none => Occ.dep j.loc nxt tr
+    | some t => t.occ)
+
+/-- the branch of `_get_waiting_time` for a job that is still on the machine -/
+def waitProcessing (j : JobState) : Except Err Occ :=
+  match j.processing? with
+  | none => throw .missingProcessingOp
+  | some op => pure (match op.stop with | some e => .at e | none => .none)
+
 /-- `_get_waiting_time` -/
 def getWaitingTime (inst : Instance) (s : State) (tr : Transition) : Except Err Occ := do
   let j ← getJobOpt s.jobs tr.job
@@ -200,19 +221,8 @@ def getWaitingTime (inst : Instance) (s : State) (tr : Transition) : Except Err 
     let ms ← getMachine s.machines mid
     if ms.post.store.contains j.id then
       if (← readyForPickup inst s j) then pure (.at s.time)
-      else
-        let nxt ← match nextJobFromBuffer ms.post bc with
-          | some n => pure n | none => throw .invalidValue
-        let ts := transportByJob s nxt
-        let nj ← getJob s.jobs nxt
-        if jobDone inst nj then pure (.at s.time)
-        else match ts with
-          | none => pure (.dep j.loc nxt tr)
-          | some t => pure t.occ
-    else
-      match j.processing? with
-      | none => throw .missingProcessingOp
-      | some op => pure (match op.stop with | some e => .at e | none => .none)
+      else waitBehind inst s tr j ms bc
+    else waitProcessing j
   | some _ => throw .notImplemented
 
 def handleAgvPickupToWaiting (inst : Instance) (s : State) (r : Rng)
